@@ -594,7 +594,33 @@ fn gen_case(seed: u64, idx: u64) -> Case {
             input[3..7].copy_from_slice(&v.to_be_bytes());
             return Case { decoder, mutation: format!("u2f-length-rewrite({v:#x})+{mutation}"), input, aux };
         }
+        19 if choice % 5 == 1 => {
+            // an otherwise well-formed authenticate frame under every possible control byte
+            let hl = rng.range(0, 255);
+            let mut data = rng.bytes(64);
+            data.push(hl as u8);
+            data.extend(rng.bytes(hl));
+            let p1 = rng.below(256) as u8;
+            return Case { decoder, mutation: "u2f-control-byte".into(), input: u2f_frame(2, p1, &data), aux };
+        }
         21 => aux.push(usize::from(*rng.pick(&[3u8, 7, 8]))),
+        22 if choice % 7 == 1 => {
+            // many channels, each left with an unfinished message: full-size initialisation packets on
+            // distinct channels declaring a long payload that never arrives
+            let n = *rng.pick(&[80usize, 300, 1000, 2500]);
+            let declared: u16 = *rng.pick(&[0xffffu16, 7609, 4000, 600]);
+            let mut input = Vec::with_capacity(n * 64);
+            let mut cuts = Vec::with_capacity(n);
+            let base = rng.next_u64() as u32 & 0x00ff_ffff;
+            for k in 0..n {
+                input.extend_from_slice(&(base + k as u32 + 1).to_be_bytes());
+                input.push(0x80 | *rng.pick(&[0x10u8, 0x03, 0x01]));
+                input.extend_from_slice(&declared.to_be_bytes());
+                input.extend(rng.bytes(57));
+                cuts.push(input.len());
+            }
+            return Case { decoder, mutation: format!("hid-unfinished-on-{n}-channels(declared {declared})"), input, aux: cuts };
+        }
         22 => {
             // split into packets of arbitrary lengths 0..200, optionally reorder
             let mut cuts = Vec::new();
